@@ -43,6 +43,7 @@ type loopInfo struct {
 	havocAll bool
 	havocKeep bool // arbitrary heap changes except this goroutine's lock set
 	allocs   bool
+	frame    *loopFrameInfo
 }
 
 type FuncVerifier struct {
